@@ -104,7 +104,8 @@ def run(ctx):
         ctx.count("%s/%s" % (meta["placement"], meta["spelling"]))
         ctx.count("rule=" + meta["violation"][1])
         cc = {k: v for k, v in c.items() if not k.startswith("_")}
-        if not kernel.compare(ctx, cc, i, m):
+        kernel.compare(ctx, cc, i, m)
+        if "error" in (i.get("out") or {"error": 1}):
             continue
         got = sorted((i.get("out") or {}).get("violations") or [], key=str)
         if got != c["_exp"]:
